@@ -131,4 +131,21 @@ theorem txt_fields_roundtrip (fs : List (List Char)) (hne : fs ≠ [])
   have : f.contains ',' = true := List.contains_iff_mem.mpr hc
   simp_all
 
+/-- a whole record line: prefix (with its colon) removed by `str.replace`, split at commas, parts
+    stripped — exactly the fields, for clean fields without colons -/
+theorem txt_line_roundtrip (P : List Char) (hP : ':' ∈ P) (fs : List (List Char)) (hne : fs ≠ [])
+    (hclean : ∀ f ∈ fs, Txt.cleanField f = true) (hcolon : ∀ f ∈ fs, ':' ∉ f) :
+    Txt.parseFields (Txt.removeAll P (P ++ ' ' :: Txt.joinFields fs)) = fs :=
+  Txt.line_roundtrip P hP fs hne hclean hcolon
+
+/-- the decimal text of any integer is a representable field … -/
+theorem txt_int_field_clean (k : Int) : Txt.cleanField k.repr.toList = true := Txt.int_field_clean k
+
+/-- … so EDGE / DEGREE / FIRING records (names, then an integer) come back as the names and the
+    integer -/
+theorem txt_record_roundtrip (names : List (List Char)) (k : Int)
+    (hclean : ∀ f ∈ names, Txt.cleanField f = true) :
+    Txt.parseFields (' ' :: Txt.joinFields (names ++ [k.repr.toList])) = names ++ [k.repr.toList] ∧
+    k.repr.toInt? = some k := Txt.record_roundtrip names k hclean
+
 end CF.C15
